@@ -511,7 +511,7 @@ def _json_default(o):
 TRUSTED_BASE = [
     "Lean 4.33.0 kernel; axioms limited to propext, Classical.choice, Quot.sound (audited with #print axioms per theorem); no native_decide, no sorry",
     "the hand-written Lean model corresponds to /repo's source: checked on every run by differential execution (Rust harness calling the real pub entry points in-process vs the compiled Lean driver), bounded by the generators reported in this file",
-    "modelled, not verified: std::io (BufRead/Write), bstr find_iter/replace/for_byte_record, memchr, serde_json string escaping, the regex engine, pico_args, process exit codes",
+    "library code TRANSCRIBED from its source text and proved equal to the model function the theorems use (trusted there: that the transcription reads the text faithfully): bstr for_byte_record_with_terminator, std read_until / read_to_end, memmem FindIter::next, serde_json format_escaped_str + ESCAPE table, core run_utf8_validation + UTF8_CHAR_WIDTH, core i32 from_str, regex replace_all (NoExpand); modelled by what they compute, not verified: the regex engine's matching (a matcher satisfying the find_iter contract), bstr replace / trim_*_with, memchr's vector code, BufReader / BufWriter / LineWriter, pico_args (modelled step by step in Model/Argv.lean), process exit codes",
     "python comparator/generators and the Rust harness report faithfully (their failure mode is a false alarm or a missed disagreement, never a false theorem)",
 ]
 ASSUMPTIONS = [
